@@ -11,4 +11,5 @@ for id in "$@"; do
   (cd /verif && ./check $id 2>&1 | grep -E "^(VIOLATION|OK|KNOWN)" | cut -c1-300)
 done
 git -C /repo checkout -- .
-echo "== reverted"
+echo "== reverted; refreshing evidence on the unchanged tree"
+for id in "$@"; do (cd /verif && ./check $id 2>&1 | grep -E "^(VIOLATION|OK)" | cut -c1-120); done
